@@ -38,6 +38,7 @@ type GenUnit struct {
 	Canary *Term // disjunction of the reach conditions of all returns (must be satisfiable)
 	WatchAssumes []*Term // definitions of named model constants (replay)
 	WatchNames   []*Term
+	ClassBound   map[string]SV // names a finding-class expression may use besides the function's parameters (lemma parameters)
 }
 
 func claimed(spec *UnitSpec, local string) bool {
